@@ -17,6 +17,10 @@ def shapes_for(tier):
 
 def replay(payload):
     c = payload['cex']
+    if c.get('kind') == 'game':
+        r = trans.game_instances(c['objective'], [c['seed']])
+        bad = [x for x in r if x['status'] == 'violation']
+        return bool(bad), (bad[0]['detail'] if bad else 'obligations hold on this game')
     found = trans.replay_member(c['shape'], c['moore'], c['plus_one'], c['objective'], c['values'],
                                 only=[c['obligation']])
     hit = [f for f in found if f[0] == c['obligation']]
@@ -46,6 +50,11 @@ def run(tier, seed, t0, only=None, pid=PID, obj=OBJ, files=FILES, shapes=None):
                 tasks.append(dict(mod='vlib.trans', fn='member_instances',
                                   kw=dict(shape=shape, moore=moore, plus_one=plus_one, objective=obj, seeds=sds[i:i + 24]),
                                   timeout=3000, name=f'cudd:{obj}-impl:members:{shape}:moore={moore}:plus_one={plus_one}[{i}]'))
+    ngames = 240 if tier == 'quick' else 3000
+    gs = [seed * 100000 + i for i in range(ngames)]
+    for i in range(0, ngames, 20):
+        tasks.append(dict(mod='vlib.trans', fn='game_instances', kw=dict(objective=obj, seeds=gs[i:i + 20]), timeout=3000,
+                          name=f'cudd:{obj}-impl:games[{i}]'))
     if only:
         tasks = [t for t in tasks if only in t['name']]
     results = core.run_tasks(tasks)
